@@ -228,15 +228,26 @@ package controller
 //@   effectfree
 //@   trusted "printing has no effect on program state"
 
+// which of the two ways of computing a PWM map was taken (default map of a fan without PWM read-back / sweep)
+//@ ghost var usedDefaultMap bool
+//@ ghost var sweepStarted bool
 //@ func (*DefaultFanController).computePwmMapAutomatically
 //@   params (f)
-//@   props C16
+//@   props C16 C12 C01
+//@   ghostdo usedDefaultMap := false
+//@   ghostdo sweepStarted := false
+//@   atcall ghost InterpolateLinearlyInt: usedDefaultMap := true
+//@   atcall ghost trySetManualPwm: sweepStarted := true
+//@   atcall[C12.defaultmap.when C01] InterpolateLinearlyInt: !supportsResult[fans.FeaturePwmSensor]
+//@   atcall[C12.sweep.when C01] trySetManualPwm: supportsResult[fans.FeaturePwmSensor]
+//@   ensures[C12.defaultmap.paths C01] usedDefaultMap != sweepStarted
+//@   ensures[C12.defaultmap C01] usedDefaultMap ==> (forall k :: k in f.pwmMap <==> 0 <= k && k <= 255) && (forall k :: k in f.pwmMap ==> 0 <= f.pwmMap[k] && f.pwmMap[k] <= 255) && f.pwmMap[0] == 0 && f.pwmMap[255] == 255
 //@   safety none
 //@   requires f != nil && fans.fanWF(f.fan)
 //@   requires[C16.sweep C16] serialised()
 //@   ensures held == old(held) && unlocks == old(unlocks)
 //@   ensures f.pwmMap != nil
-//@   modifies f.pwmMap, pwmWrites, lastPwm, lastPwmErr, modeWrites, lastMode, modeVerified, fileInt, procWorld, started, lastReadFailed, enableReads, supportsResult, f.fan.(*fans.HwMonFan).Pwm, f.fan.(*fans.FileFan).Pwm, f.fan.(*fans.CmdFan).Pwm
+//@   modifies usedDefaultMap, sweepStarted, lastInterp, segLo, segHi, segHit, f.pwmMap, pwmWrites, lastPwm, lastPwmErr, modeWrites, lastMode, modeVerified, fileInt, procWorld, started, lastReadFailed, enableReads, supportsResult, f.fan.(*fans.HwMonFan).Pwm, f.fan.(*fans.FileFan).Pwm, f.fan.(*fans.CmdFan).Pwm
 //@   loop 1 "for i := fans.MaxPwmValue; i >= fans.MinPwmValue; i--"
 //@     invariant pwmMap != nil && fresh(pwmMap) && fans.fanWF(f.fan) && f.fan == old(f.fan)
 
@@ -250,7 +261,7 @@ package controller
 //@   ensures[C15.stored] old(cfgMap(f.fan)) == nil && mapLoadOK[old(mapLoadCount)] && mapLoadRes[old(mapLoadCount)] != 0 ==> err == nil && ref(f.pwmMap) == mapLoadRes[old(mapLoadCount)] && pwmWrites == old(pwmWrites) && modeWrites == old(modeWrites)
 //@   ensures[C15.persist] old(cfgMap(f.fan)) == nil && err == nil && !(mapLoadOK[old(mapLoadCount)] && mapLoadRes[old(mapLoadCount)] != 0) ==> dbHas["fanPwmMap"][persistence.fanId(f.fan)]
 //@   ensures f.fan == old(f.fan) && f.persistence == old(f.persistence) && persistence.dbWF() && initRuns == old(initRuns)
-//@   modifies f.pwmMap, each(map[int]int)[_], pwmWrites, lastPwm, lastPwmErr, modeWrites, lastMode, modeVerified, fileInt, procWorld, started, lastReadFailed, enableReads, supportsResult, f.fan.(*fans.HwMonFan).Pwm, f.fan.(*fans.FileFan).Pwm, f.fan.(*fans.CmdFan).Pwm
+//@   modifies usedDefaultMap, sweepStarted, lastInterp, segLo, segHi, segHit, f.pwmMap, each(map[int]int)[_], pwmWrites, lastPwm, lastPwmErr, modeWrites, lastMode, modeVerified, fileInt, procWorld, started, lastReadFailed, enableReads, supportsResult, f.fan.(*fans.HwMonFan).Pwm, f.fan.(*fans.FileFan).Pwm, f.fan.(*fans.CmdFan).Pwm
 //@   modifies dbBucket, dbHas, dbVal, txBucket, txHas, txVal, txStarted, txCommits, decodeFailed, mapLoadCount, mapLoadOK, mapLoadRes
 
 //@ func (*DefaultFanController).computePwmMap
@@ -264,7 +275,7 @@ package controller
 //@   ensures[C15.stored] old(cfgMap(f.fan)) == nil && mapLoadOK[old(mapLoadCount)] && mapLoadRes[old(mapLoadCount)] != 0 ==> err == nil && ref(f.pwmMap) == mapLoadRes[old(mapLoadCount)] && pwmWrites == old(pwmWrites) && modeWrites == old(modeWrites)
 //@   ensures[C15.persist] old(cfgMap(f.fan)) == nil && err == nil && !(mapLoadOK[old(mapLoadCount)] && mapLoadRes[old(mapLoadCount)] != 0) ==> dbHas["fanPwmMap"][persistence.fanId(f.fan)]
 //@   ensures f.fan == old(f.fan) && f.persistence == old(f.persistence) && persistence.dbWF() && initRuns == old(initRuns)
-//@   modifies f.pwmMap, each(map[int]int)[_], pwmWrites, lastPwm, lastPwmErr, modeWrites, lastMode, modeVerified, fileInt, procWorld, started, lastReadFailed, enableReads, supportsResult, f.fan.(*fans.HwMonFan).Pwm, f.fan.(*fans.FileFan).Pwm, f.fan.(*fans.CmdFan).Pwm
+//@   modifies usedDefaultMap, sweepStarted, lastInterp, segLo, segHi, segHit, f.pwmMap, each(map[int]int)[_], pwmWrites, lastPwm, lastPwmErr, modeWrites, lastMode, modeVerified, fileInt, procWorld, started, lastReadFailed, enableReads, supportsResult, f.fan.(*fans.HwMonFan).Pwm, f.fan.(*fans.FileFan).Pwm, f.fan.(*fans.CmdFan).Pwm
 //@   modifies dbBucket, dbHas, dbVal, txBucket, txHas, txVal, txStarted, txCommits, decodeFailed, mapLoadCount, mapLoadOK, mapLoadRes, held, unlocks
 
 //@ opaque func (*DefaultFanController).waitForFanToSettle
